@@ -161,7 +161,10 @@ def rule_limiter_admission(ctx, crate, rule="R-LIMITER-ADMISSION"):
         now_p = [i for i in range(1, b.arg_count + 1) if "Instant" in b.locals[i]["ty"]]
         trues = sorted({i for i, j, s in b.assigns() if s["lhs"]["l"] == 0 and not s["lhs"]["p"] and is_const(s["rv"].get("op"), True)})
         falses = sorted({i for i, j, s in b.assigns() if s["lhs"]["l"] == 0 and not s["lhs"]["p"] and is_const(s["rv"].get("op"), False)})
-        ctx.floor(rule, len(trues), 1, cfg, "admission (`true`) sites in %s" % K.meth(fn.replace("::allow", "")))
+        # `let admit = ..; if admit { stores }; admit`: the verdict is a flag - its two values are the admission and the refusal
+        flags = sorted({(i, operand_local(s["rv"]["op"])) for i, j, s in b.assigns() if s["lhs"]["l"] == 0 and not s["lhs"]["p"] and s["rv"]["k"] == "use"
+                        and s["rv"]["op"].get("k") in ("copy", "move") and not s["rv"]["op"]["place"]["p"] and b.locals[operand_local(s["rv"]["op"])]["ty"] == "bool"})
+        ctx.floor(rule, len(trues) + len(flags), 1, cfg, "admission (`true`) sites in %s" % K.meth(fn.replace("::allow", "")))
         prev_stores, cap_stores = [], []
         if kind == "field":
             for i, j, s in b.assigns():
@@ -206,6 +209,21 @@ def rule_limiter_admission(ctx, crate, rule="R-LIMITER-ADMISSION"):
             ctx.check(not wo_cap, rule, "%s:admission-caps-capacity" % K.meth(fn.replace("::allow", "")), b.name, K.fn_loc(b),
                       "every admission stores capacity through min(MAX_BURST, ..)",
                       "an admission path updates/keeps capacity without the MAX_BURST cap (or without consuming a token)", cfg)
+        for i_, fl in flags:
+            n += 2
+            Rt, av_t = K.bool_reach(b, fl, True)
+            Rf, av_f = K.bool_reach(b, fl, False)
+            wo_prev = i_ in b.reach([0], avoid=good_prev, avoid_edges=av_t)
+            wo_cap = i_ in b.reach([0], avoid=good_cap, avoid_edges=av_t)
+            ctx.check(not wo_prev, rule, "%s:admission-advances-prev" % K.meth(fn.replace("::allow", "")), b.name, K.fn_loc(b),
+                      "every admission stores a new reference time derived from `now`",
+                      "an admission path leaves `prev` untouched: the elapsed time is credited again at the next refill (more than burst + rate*T frames)", cfg)
+            ctx.check(not wo_cap, rule, "%s:admission-caps-capacity" % K.meth(fn.replace("::allow", "")), b.name, K.fn_loc(b),
+                      "every admission stores capacity through min(MAX_BURST, ..)",
+                      "an admission path updates/keeps capacity without the MAX_BURST cap (or without consuming a token)", cfg)
+            stored = any(si in b.reach([0], avoid_edges=av_f) and (i_ in b.reach([si], avoid_edges=av_f)) for si, sl in prev_stores + cap_stores)
+            ctx.check(not stored, rule, "%s:refusal-pure" % K.meth(fn.replace("::allow", "")), b.name, K.fn_loc(b),
+                      "a refused request leaves the bucket unchanged", "a refused request still modifies the bucket", cfg)
         for f in falses:
             n += 1
             # nothing stored on a refusing path: the false-site is not reachable after any store
